@@ -1,9 +1,194 @@
-(* Properties/C06.v — Aspen replicas converge. Only statements. *)
+(* Properties/C06.v — Aspen replicas converge: same operations, any order, same state.
+   Only statements, each closed by [exact] (short glue allowed), each followed by Print Assumptions.
+   Model: Aspen/KV.v. Proofs: Aspen/KVJoin.v (one node), Aspen/KVInv.v (cluster LTS),
+   Aspen/KVQuiesce.v (quiescence), Aspen/KVWitness.v (refutations by concrete runs). *)
 From stdpp Require Import gmap.
-From Coq Require Import NArith ZArith.
-From Synnax Require Import Aspen.KV Aspen.KVJoin.
+From Coq Require Import NArith ZArith Lia.
+From Synnax Require Import Aspen.KV Aspen.KVJoin Aspen.KVInv Aspen.KVQuiesce Aspen.KVWitness.
 Local Open Scope N_scope.
 
-Theorem C06_supersedes_irreflexive : forall o, supersedes (Some o) o = false.
-Proof. exact supersedes_irrefl. Qed.
-Print Assumptions C06_supersedes_irreflexive.
+(* (1) The rule every node applies: [supersedes] is the strict lexicographic order on
+   (version, leaseholder) — higher version wins, equal versions go to the higher leaseholder;
+   irreflexive, transitive, total up to equal (version, leaseholder); no digest accepts anything. *)
+Theorem C06_supersedes_strict_total_order :
+  (forall d o, supersedes (Some d) o = true <-> op_lt d o) /\
+  (forall o, supersedes None o = true) /\
+  (forall a, ~ op_lt a a) /\
+  (forall a b c, op_lt a b -> op_lt b c -> op_lt a c) /\
+  (forall a b, op_lt a b \/ (o_ver a = o_ver b /\ o_lh a = o_lh b) \/ op_lt b a).
+Proof.
+  split; [exact supersedes_some|]. split; [exact supersedes_none|]. split; [exact op_lt_irrefl|].
+  split; [exact op_lt_trans|exact op_lt_total].
+Qed.
+Print Assumptions C06_supersedes_strict_total_order.
+
+(* (2) Ingestion resolves by that rule: after any batch the entry of a key is one of the candidates
+   (the previous entry or a delivered operation of that key) and is at least as new as all of them. *)
+Theorem C06_entry_is_lww_maximum : forall e l k m,
+  ingest_eng e l !! k = Some m ->
+  (e !! k = Some m \/ (In m l /\ o_key m = k)) /\
+  (forall o, In o l -> o_key o = k -> op_le o m) /\
+  (forall d, e !! k = Some d -> op_le d m).
+Proof. exact ingest_is_max. Qed.
+Print Assumptions C06_entry_is_lww_maximum.
+
+(* (3) Same set of operations, in any order, with any duplication and any batching => identical
+   engine (value, deletion and digest of every key), from any common starting engine. Coherence =
+   one (key, version, leaseholder) names one operation. Unbounded in every dimension. *)
+Theorem C06_same_set_same_state : forall e (bs1 bs2 : list (list op)),
+  keyed e ->
+  (forall o, In o (concat bs1) <-> In o (concat bs2)) ->
+  coherent (fun o => eng_op e o \/ In o (concat bs1)) ->
+  ingest_all e bs1 = ingest_all e bs2.
+Proof. intros e bs1 bs2 K S C. rewrite !ingest_all_concat. apply ingest_same_set; assumption. Qed.
+Print Assumptions C06_same_set_same_state.
+
+(* batching is irrelevant; redelivery is a no-op (no coherence needed for either) *)
+Theorem C06_batching_irrelevant : forall e bs, ingest_all e bs = ingest_eng e (concat bs).
+Proof. intros e bs. apply ingest_all_concat. Qed.
+Print Assumptions C06_batching_irrelevant.
+
+Theorem C06_redelivery_idempotent : forall e b, ingest_eng (ingest_eng e b) b = ingest_eng e b.
+Proof. exact ingest_idempotent. Qed.
+Print Assumptions C06_redelivery_idempotent.
+
+(* (4) Ingestion never replaces an applied operation by an older one, and never changes the
+   content at an equal (version, leaseholder). *)
+Theorem C06_ingest_never_older : forall e b k d,
+  e !! k = Some d -> exists d', ingest_eng e b !! k = Some d' /\ (d' = d \/ op_lt d d').
+Proof. exact ingest_monotone. Qed.
+Print Assumptions C06_ingest_never_older.
+
+(* (5) Interleaving with unconditional applies (the leaseholder path and recovery write without
+   consulting the digest): two nodes that went through any two event sequences with the same
+   operations end identical PROVIDED every unconditionally written operation was the stored one
+   or superseded it at that moment ([forces_ok]). The guard is what (6) establishes. *)
+Theorem C06_same_set_with_local_writes_partial : forall e evs1 evs2,
+  keyed e -> forces_ok e evs1 -> forces_ok e evs2 ->
+  (forall o, In o (concat (map ev_ops evs1)) <-> In o (concat (map ev_ops evs2))) ->
+  coherent (fun o => eng_op e o \/ In o (concat (map ev_ops evs1))) ->
+  run_events e evs1 = run_events e evs2.
+Proof. exact events_same_set. Qed.
+Print Assumptions C06_same_set_with_local_writes_partial.
+
+(* (6) Under the single-leaseholder invariant InvU (maintained by every covered step, see (7)):
+   the operation DB.Set/Delete makes the leaseholder write supersedes what the leaseholder stores,
+   and every operation a back-to-back recovery streams is the stored one or supersedes it. *)
+Theorem C06_leaseholder_path_is_join_partial : forall U w n k v lease del nd lh ndl,
+  InvU U w ->
+  (forall nd, w_nodes w !! n = Some nd -> n_eng nd !! k = None -> fresh_key U k) ->
+  w_nodes w !! n = Some nd -> alloc nd n k lease del = inl lh -> w_nodes w !! lh = Some ndl ->
+  supersedes (n_eng ndl !! k) (local_op ndl lh k del v) = true.
+Proof. intros. eapply local_force_ok; eassumption. Qed.
+Print Assumptions C06_leaseholder_path_is_join_partial.
+
+Theorem C06_recovery_is_join_partial : forall U w n p nd ndp k o,
+  InvU U w -> w_nodes w !! n = Some nd -> w_nodes w !! p = Some ndp ->
+  rec_ops (n_eng ndp) (high_water (n_eng nd)) !! k = Some o ->
+  n_eng nd !! k = Some o \/ supersedes (n_eng nd !! k) o = true.
+Proof. exact recover_force_ok. Qed.
+Print Assumptions C06_recovery_is_join_partial.
+
+(* (7) Never older, over the whole cluster LTS: any number of nodes, any run from the empty
+   cluster made of DB.Set/Delete on any node (lease forwarding, lease options), gossip rounds with
+   early or late replies, payload snapshots delivered late / duplicated / never, redelivery of any
+   batch of existing operations, feedback in any order or lost, restarts, back-to-back recovery,
+   subscriptions — with one creator per key and no recovery split from its high-water read
+   ([ok_run]). For every split of the run, what a node held after the first part it still holds,
+   or holds something strictly newer, after the whole run. Both store variants. *)
+Theorem C06_never_older_partial : forall fx T ns l1 l2,
+  ok_run fx T no_op (world0 ns) (l1 ++ l2) ->
+  world_le (run fx T (world0 ns) l1) (run fx T (world0 ns) (l1 ++ l2)).
+Proof. exact never_older. Qed.
+Print Assumptions C06_never_older_partial.
+
+(* The full statement (no guard) does not hold in the faithful model — and not in the code: *)
+Definition C06_never_older_full : Prop := forall fx T ns l1 l2,
+  world_le (run fx T (world0 ns) l1) (run fx T (world0 ns) (l1 ++ l2)).
+
+(* two creators of one key: the leaseholder path overwrites a newer entry of the other leader *)
+Theorem C06_never_older_leaseholder_path_refuted : ~ C06_never_older_full.
+Proof. intros H. exact (leasepath_refuted true (H true 2 [1; 2; 3] lp_prefix lp_last)). Qed.
+Print Assumptions C06_never_older_leaseholder_path_refuted.
+
+(* one creator per key, recovery applied after gossip moved on: the peer's older entry lands on top *)
+Theorem C06_never_older_recovery_refuted :
+  ~ world_le (run true 1 (world0 [1; 2; 3]) rs_prefix) (run true 1 (world0 [1; 2; 3]) (rs_prefix ++ rs_last)) /\
+  entry_at (run true 1 (world0 [1; 2; 3]) rp_prefix) 3 1 = Some (Op 1 2 1 false 11) /\
+  entry_at (run true 1 (world0 [1; 2; 3]) (rp_prefix ++ rp_last)) 3 1 = Some (Op 1 1 1 false 10).
+Proof. split; [exact (recovery_split_refuted true)|exact (recovery_two_peers_regress true)]. Qed.
+Print Assumptions C06_never_older_recovery_refuted.
+
+(* (8) Quiescence. Full statement: in every reachable state without infected operations all
+   engines are identical. *)
+Definition C06_quiescent_full : Prop := forall T ns l,
+  let w := run true T (world0 ns) l in
+  quiescent w -> forall n m, entry_at w n = entry_at w m.
+
+(* refuted on three nodes (SIR stops after T+1 redundant feedbacks from any peers) ... *)
+Theorem C06_quiescent_three_nodes_refuted : ~ C06_quiescent_full.
+Proof.
+  intros H. destruct (sir_quiesced_diverged true) as (Hq & H1 & _ & H3).
+  specialize (H 1 [1; 2; 3] sir_script (quiescentb_sound _ Hq) 1 3).
+  apply (f_equal (fun f => f 1)) in H. rewrite H1, H3 in H. discriminate.
+Qed.
+Print Assumptions C06_quiescent_three_nodes_refuted.
+
+(* ... and on two nodes after a restart (the gossip store is in memory only) *)
+Theorem C06_quiescent_restart_refuted :
+  let w := run true 1 (world0 [1; 2]) [SWrite 1 1 10 0; SRestart 1; SRound 1 2 false; SRound 2 1 false] in
+  quiescent w /\ entry_at w 1 1 = Some (Op 1 1 1 false 10) /\ entry_at w 2 1 = None.
+Proof.
+  destruct (restart_quiesced_diverged true) as (Hq & H1 & H2).
+  split; [exact (quiescentb_sound _ Hq)|split; assumption].
+Qed.
+Print Assumptions C06_quiescent_restart_refuted.
+
+(* With the pinned upstream gossip store (fx = false) it failed even on two nodes without restart:
+   finding F5, repaired in /repo; the model's fx = true copies the repaired kvStore.apply. *)
+Theorem C06_quiescent_unfixed_store_refuted :
+  let w := run false 1 (world0 [1; 2]) f5_script in
+  quiescent w /\ entry_at w 1 1 = Some (Op 1 2 1 false 11) /\ entry_at w 2 1 = Some (Op 1 1 1 false 10).
+Proof.
+  destruct f5_unfixed as (Hq & H1 & H2). split; [exact (quiescentb_sound _ Hq)|split; assumption].
+Qed.
+Print Assumptions C06_quiescent_unfixed_store_refuted.
+
+(* What holds: two nodes, repaired store, one creator per key, no restart / recovery, payloads
+   not delivered to their own sender; feedback delayed, reordered or lost, payloads delayed,
+   duplicated or lost, unbounded runs. Whenever no node holds an infected operation the engines are
+   identical and each node holds an entry at least as new as every operation the other one ever
+   created as leaseholder — every node holds the leaseholder's latest write for each key. *)
+Theorem C06_quiescent_two_nodes_partial : forall T A B l,
+  A <> B ->
+  ok_run true T no_op (world0 [A; B]) l -> q_run T (world0 [A; B]) l ->
+  let w := run true T (world0 [A; B]) l in
+  quiescent w ->
+  forall ndA ndB, w_nodes w !! A = Some ndA -> w_nodes w !! B = Some ndB ->
+    n_eng ndA = n_eng ndB /\
+    exists U : op -> Prop, (forall o, in_world w o -> U o) /\
+      (forall o, U o -> o_lh o = A -> above (n_eng ndB !! o_key o) o) /\
+      (forall o, U o -> o_lh o = B -> above (n_eng ndA !! o_key o) o).
+Proof. exact quiescent_two_nodes. Qed.
+Print Assumptions C06_quiescent_two_nodes_partial.
+
+(* Non-vacuity. (a) a coherent set with an equal-version pair and a delete, delivered in two
+   different orders/batchings with a duplicate: same non-trivial engine. (b) the hypotheses of the
+   two-node quiescence theorem are met by a 24-step run with an overwrite racing feedback. *)
+Definition ex_S : list op :=
+  [Op 1 2 4 false 10; Op 1 2 6 true 0; Op 1 1 7 false 3; Op 2 5 4 false 8; Op 2 3 5 true 0].
+Example C06_nonvacuous :
+  let bs1 := [[Op 1 2 4 false 10; Op 2 3 5 true 0]; [Op 1 2 6 true 0]; [Op 1 1 7 false 3; Op 2 5 4 false 8]] in
+  let bs2 := [[Op 2 5 4 false 8]; [Op 1 1 7 false 3; Op 1 2 6 true 0; Op 1 2 4 false 10]; [Op 2 3 5 true 0; Op 1 2 6 true 0]] in
+  (forall o, In o (concat bs1) <-> In o (concat bs2)) /\
+  bool_decide (ingest_all ∅ bs1 = ingest_all ∅ bs2) = true /\
+  ingest_all ∅ bs1 !! 1 = Some (Op 1 2 6 true 0) /\ ingest_all ∅ bs1 !! 2 = Some (Op 2 5 4 false 8) /\
+  ok_run true 1 no_op (world0 [1; 2]) f5_script /\ q_run 1 (world0 [1; 2]) f5_script /\
+  quiescent (run true 1 (world0 [1; 2]) f5_script) /\
+  entry_at (run true 1 (world0 [1; 2]) f5_script) 2 1 = Some (Op 1 2 1 false 11).
+Proof.
+  split; [intros o; simpl; tauto|].
+  split; [vm_compute; reflexivity|]. split; [vm_compute; reflexivity|]. split; [vm_compute; reflexivity|].
+  destruct f5_script_covered as (H1 & H2 & H3). repeat split; try assumption.
+  vm_compute. reflexivity.
+Qed.
